@@ -124,9 +124,44 @@ def clause1(P, res):
         res.violated(rid, "admission-sites", f"expected >= 12 admission-gated commit sites, found {n}")
 
 
+RING_SCOPE = re.compile(r"^fibre::<?(spsc::shared|mpsc::bounded_v3|spmc::ring_buffer)")
+CURSOR_FIELDS = ("head", "tail", "consumer_tail_idx", "drained", "progress", "state", "consumer_retired", "sequence")
+
+
+def clause2(P, res):
+    from rules import pubsub, cachelib
+    rid = "C03-2"
+    res.rule(rid, "a slot is handed back only after its payload is out: in the lock-free bounded rings (spsc, mpsc-bounded, spmc) no write to a cursor/state "
+                  "field of the ring dominates the payload read of the same dequeue, and every path from the read to the return passes a >=Release write that "
+                  "hands the slot back — a cursor published first lets the producer admit an (N+1)th value into a slot still being read")
+    n = 0
+    for b in P.bodies.values():
+        if not RING_SCOPE.search(b.id) or "::tests::" in b.id or not common.in_scope(b.id):
+            continue
+        R = pubsub.payload_reads(b)
+        if not R or (b.impl_trait or "").endswith("Drop"):
+            continue
+        aw = pubsub.atomic_writes(b)
+        for i, r in enumerate(R):
+            n += 1
+            key = f"{b.id}:read#{i}"
+            early = [x for x in aw if x.args and b.path_of_operand(x.args[0]).rsplit(".", 1)[-1] in CURSOR_FIELDS and b.dominated_by_any(r.pos, {x.pos})]
+            rel = [x for x in aw if (pubsub._ord(b, x) or ["?"])[0] in orderings.STRONG_W]
+            if early:
+                res.violated(rid, key, f"the {early[0].method} on `{b.path_of_operand(early[0].args[0]).rsplit('.', 1)[-1]}` at {early[0].loc} hands the slot back before its payload is read at {r.loc}: "
+                             "a full ring admits another value into the slot being read", where=r.loc)
+            elif not rel or not cachelib.all_paths_pass(b, [r.pos], [x.pos for x in rel], strict=True):
+                res.violated(rid, key, f"a path from the payload read at {r.loc} returns without a >=Release write handing the slot back", where=r.loc)
+            else:
+                res.holds(rid, key, f"read {r.loc}, then {rel[0].method}(Release) on `{b.path_of_operand(rel[0].args[0]).rsplit('.', 1)[-1]}`", where=r.loc)
+    if n < 5:
+        res.violated(rid, "ring-dequeue-sites", f"expected >= 5 payload reads in the bounded rings, found {n}")
+
+
 def run(P, ctx):
     res = Result("C03")
     res.extra["explanation"] = ("Admission-gate shape of value-carrying commits where the admission predicate is a call (mpsc-bounded credit, mpmc-bounded fullness under "
                                 "the lock, oneshot CAS, rendezvous pairing). SPSC/SPMC admission is inline index arithmetic and is NOT decided; len()<=capacity as a number is not decided.")
     clause1(P, res)
+    clause2(P, res)
     return res
